@@ -59,6 +59,7 @@ int bufferevent_decref_(struct bufferevent *bufev) { (void)bufev; VP_ASSERT(0, "
 static struct evbuffer *A, *B;
 static int ncb;
 static unsigned char data[40];
+static char needle[2];
 static unsigned char refstore[16];
 static int ref_cleaned;
 static void cbfn(struct evbuffer *b, const struct evbuffer_cb_info *info, void *arg)
@@ -114,9 +115,9 @@ static void the_call(void)
 #elif C08B_OP == B_SEARCH
 	{
 		struct evbuffer_ptr p, q;
-		CALL(p = evbuffer_search(A, (const char *)data, 2, NULL));
+		CALL(p = evbuffer_search(A, needle, 2, NULL));
 		CALL(r = evbuffer_ptr_set(A, &q, 20, EVBUFFER_PTR_SET));
-		CALL(p = evbuffer_search_range(A, (const char *)data, 2, NULL, &q));
+		CALL(p = evbuffer_search_range(A, needle, 2, NULL, &q));
 	}
 #elif C08B_OP == B_SEARCH_EOL
 	{ struct evbuffer_ptr p; size_t l; CALL(p = evbuffer_search_eol(A, NULL, &l, g_n == 0 ? EVBUFFER_EOL_ANY : g_n == 3 ? EVBUFFER_EOL_CRLF : g_n == 16 ? EVBUFFER_EOL_CRLF_STRICT : EVBUFFER_EOL_NUL)); (void)p; }
@@ -168,6 +169,17 @@ static void the_call(void)
 	(void)r;
 }
 
+/* one complete scenario (all choices concrete): the call, then both buffers are released -- inside the branch, a
+ * chain list merged over 16 scenarios makes evbuffer_free walk symbolic pointers (measured: > 200 s) */
+static void scenario(void)
+{
+	the_call();
+	VP_ASSERT_NO_LOCKS("evbuffer API call");
+	if (A) evbuffer_free(A);
+	evbuffer_free(B);
+	VP_ASSERT_NO_LOCKS("evbuffer_free");
+}
+
 #ifdef C08B_SMALL     /* the expensive calls (pullup, multicast): two sizes, first allocation may fail */
 #define PICK_N(stmt) do { if (vp_bool()) { g_n = 0; stmt; } else { g_n = 16; stmt; } } while (0)
 #define PICK_FAIL(stmt) do { if (vp_bool()) { g_fail = 0; stmt; } else { g_fail = 1; stmt; } } while (0)
@@ -183,7 +195,13 @@ static void the_call(void)
 void harness_evbuffer_api(void)
 {
 	int r;
+#if C08B_OP == B_SEARCH || C08B_OP == B_SEARCH_EOL || C08B_OP == B_READLN
+	/* (scanning calls branch on every payload byte: concrete text with CRLF, LF and NUL in it, symbolic needle) */
+	{ size_t i; for (i = 0; i < sizeof data; i++) data[i] = (unsigned char)('a' + i % 5); data[7] = '\r'; data[8] = '\n'; data[18] = '\n'; data[22] = 0; }
+	needle[0] = vp_bool() ? 'c' : 'z'; needle[1] = vp_bool() ? 'd' : 'q';
+#else
 	vp_bytes(data, sizeof data);
+#endif
 	A = evbuffer_new(); B = evbuffer_new();
 	__CPROVER_assume(A && B);
 	r = evbuffer_enable_locking(A, NULL); VP_ASSERT(r == 0, "locking enabled");
@@ -193,10 +211,6 @@ void harness_evbuffer_api(void)
 	r = evbuffer_add(B, data + 25, 7); __CPROVER_assume(r == 0);
 	__CPROVER_assume(evbuffer_add_cb(A, cbfn, NULL) != NULL);
 	VP_ASSERT_NO_LOCKS("setup");
-	PICK_FAIL(PICK_N(the_call()));
-	VP_ASSERT_NO_LOCKS("evbuffer API call");
-	if (A) { evbuffer_free(A); }
-	evbuffer_free(B);
-	VP_ASSERT_NO_LOCKS("evbuffer_free");
+	PICK_FAIL(PICK_N(scenario()));
 	VP_WITNESS("end of harness");
 }
